@@ -129,6 +129,8 @@ def file_obstacle(draw, oid, prof, lim, around=None):
               "shape": shape, "init": init}
         if prof.get("static_signals") and draw(st.booleans()):
             ob["signal0"] = draw(gs.signal_recipe(0, prof))
+        if prof.get("static_signals") and draw(st.booleans()):
+            ob["signals"] = [draw(gs.signal_recipe(1 + k, prof)) for k in range(draw(st.integers(1, 3)))]
         return ob
     ob = {"role": role, "id": oid, "type": draw(st.sampled_from(prof["types_dynamic"])),
           "shape": shape, "init": init}
@@ -156,6 +158,9 @@ def file_obstacle(draw, oid, prof, lim, around=None):
                     s["a"][unc_field] = draw(uncertain_value(unc_field))
                 states.append(s)
         ob["pred"] = {"k": "traj", "traj": {"t0": 1, "states": states}}
+        if prof.get("pred_shape") and draw(st.integers(0, 2)) == 0:
+            # the prediction may carry its own shape (e.g. inflated by a safety margin); protobuf has a field for it
+            ob["pred"]["shape"] = draw(gg.simple_shape(centered=True, lo=lo, oriented=False))
     else:
         ob["pred"] = {"k": "set", "t0": 1, "occ": draw(occupancies(prof, 1))}
     if draw(st.booleans()):
@@ -258,6 +263,7 @@ def file_scenario(draw, fmt="xml", max_lanelets=5, max_obstacles=4, max_pps=2, m
     prof["custom_extra"] = XML_CUSTOM_EXTRA if fmt == "xml" else PB_CUSTOM_EXTRA
     if fmt == "pb":
         prof["static_signals"] = True
+        prof["pred_shape"] = True
     prof["signal_fields"] = gs.SIGNAL_FIELDS
     if extra_profile:
         prof.update(extra_profile)
